@@ -1,3 +1,134 @@
-import GoagModel.JsonModel
+import GoagModel.JsonWriter
+/-
+  C06 (and the validity half of C07) — the object writer emitted by goag produces a
+  well-formed JSON object body for EVERY value: whatever subset of optional properties is
+  set, wherever embedded allOf members sit and whatever they write.
+-/
 namespace Goag.JsonM
+
+theorem render_append_one (acc : List (String × J)) (k : String) (j : J) :
+    render (acc ++ [(k, j)]) = render acc ++ sep (!acc.isEmpty) ++ [Tok.member k j] := by
+  induction acc with
+  | nil => simp [render, sep]
+  | cons x tl ih =>
+    obtain ⟨k', j'⟩ := x
+    cases tl with
+    | nil => simp [render, sep]
+    | cons y tl' =>
+      obtain ⟨k2, j2⟩ := y
+      simp only [List.cons_append, render] at ih ⊢
+      rw [ih]
+      simp [sep]
+
+theorem render_append (acc more : List (String × J)) (hne : more ≠ []) :
+    render (acc ++ more) = render acc ++ sep (!acc.isEmpty) ++ render more := by
+  induction acc with
+  | nil => simp [render, sep]
+  | cons x tl ih =>
+    obtain ⟨k', j'⟩ := x
+    cases tl with
+    | nil =>
+      cases more with
+      | nil => exact absurd rfl hne
+      | cons m ms => obtain ⟨k2, j2⟩ := m; simp [render, sep]
+    | cons y tl' =>
+      obtain ⟨k2, j2⟩ := y
+      simp only [List.cons_append, render] at ih ⊢
+      rw [ih]
+      simp [sep]
+
+theorem render_nil_iff (ms : List (String × J)) : (render ms).isEmpty = ms.isEmpty := by
+  match ms with
+  | [] => rfl
+  | [(k, j)] => rfl
+  | (k, j) :: x :: rest => rfl
+
+/-- writer invariant: the output is the well-formed rendering of the members written so far,
+    and `comma` is set exactly when something was written -/
+def Inv (w : W) (acc : List (String × J)) : Prop := w.out = render acc ∧ w.comma = !acc.isEmpty
+
+theorem writeItems_inv (items : List Item) (w : W) (acc : List (String × J)) (h : Inv w acc) :
+    Inv (writeItems items w) (acc ++ flatten items) := by
+  fun_induction writeItems items w generalizing acc with
+  | case1 w => simpa [flatten] using h
+  | case2 k j rest w ih =>
+    have : Inv ⟨w.out ++ sep w.comma ++ [Tok.member k j], true⟩ (acc ++ [(k, j)]) := by
+      obtain ⟨h1, h2⟩ := h
+      refine ⟨?_, by simp⟩
+      simp only
+      rw [render_append_one, h1, h2]
+    have := ih (acc ++ [(k, j)]) this
+    simpa [flatten, List.append_assoc] using this
+  | case3 rest w ih => simpa [flatten] using ih acc h
+  | case4 inner rest w buf hbuf ih_inner ih_rest =>
+    have hin := ih_inner [] ⟨rfl, rfl⟩
+    simp only [List.nil_append] at hin
+    have hflat : flatten inner = [] := by
+      have : (render (flatten inner)).isEmpty = true := by rw [← hin.1]; exact hbuf
+      rw [render_nil_iff] at this
+      simpa using this
+    have := ih_rest acc h
+    simpa [flatten, hflat] using this
+  | case5 inner rest w buf hbuf ih_inner ih_rest =>
+    have hin := ih_inner [] ⟨rfl, rfl⟩
+    simp only [List.nil_append] at hin
+    have hne : flatten inner ≠ [] := by
+      intro he
+      apply hbuf
+      show (writeItems inner W.start).out.isEmpty = true
+      rw [hin.1, he]; rfl
+    have : Inv ⟨w.out ++ sep w.comma ++ buf, true⟩ (acc ++ flatten inner) := by
+      obtain ⟨h1, h2⟩ := h
+      refine ⟨?_, by simp [hne]⟩
+      show w.out ++ sep w.comma ++ (writeItems inner W.start).out = _
+      rw [render_append acc _ hne, h1, h2, hin.1]
+    have := ih_rest (acc ++ flatten inner) this
+    simpa [flatten, List.append_assoc] using this
+
+theorem parseMore_render (k : String) (j : J) (rest : List (String × J)) :
+    parseMore (Tok.comma :: render ((k, j) :: rest)) = some ((k, j) :: rest) := by
+  induction rest generalizing k j with
+  | nil => simp [render, parseMore]
+  | cons x tl ih =>
+    obtain ⟨k2, j2⟩ := x
+    simp only [render, parseMore]
+    rw [ih k2 j2]
+    rfl
+
+theorem parseMembers_render (ms : List (String × J)) : parseMembers (render ms) = some ms := by
+  match ms with
+  | [] => rfl
+  | [(k, j)] => simp [render, parseMembers, parseMore]
+  | (k, j) :: (k2, j2) :: rest =>
+    have := parseMore_render k2 j2 rest
+    simp only [render, parseMembers, this]
+    rfl
+
+
+/-- **C06 (valid JSON)**: for every item list (any mix of written properties, unset optional
+    properties and embedded allOf members at any nesting depth) the emitted comma discipline
+    yields a token sequence that parses as a JSON object body, and its members are exactly
+    the members the value denotes, in order -/
+theorem encode_members_wellformed (items : List Item) :
+    parseMembers (writeItems items W.start).out = some (flatten items) := by
+  have h := writeItems_inv items W.start [] ⟨rfl, rfl⟩
+  simp only [List.nil_append] at h
+  rw [h.1, parseMembers_render]
+
+/-! The writer of the pinned commit (before c37fd27) breaks this in both directions; the two
+    witnesses were replayed on the real code (`{"x":5"a":"s"}` and `{,"x":1}`). -/
+
+theorem old_writer_missing_comma :
+    parseMembers (writeItemsOld [Item.prop "x" (.raw "5"), Item.embedded [Item.prop "a" (.raw "\"s\"")]] W.start).out = none := by
+  simp [writeItemsOld, sep, parseMembers, parseMore, W.start]
+
+theorem old_writer_leading_comma :
+    parseMembers (writeItemsOld [Item.embedded [Item.skip], Item.prop "x" (.raw "1")] W.start).out = none := by
+  simp [writeItemsOld, sep, parseMembers, parseMore, W.start]
+
+/-- non-vacuity: an embedded member between two properties, one optional property unset -/
+example : parseMembers (writeItems [Item.prop "x" (.raw "5"), Item.embedded [Item.skip, Item.prop "a" .null], Item.skip, Item.prop "z" (.arr [])] W.start).out
+    = some [("x", .raw "5"), ("a", .null), ("z", .arr [])] := by
+  rw [encode_members_wellformed]; simp [flatten]
+
 end Goag.JsonM
